@@ -619,6 +619,13 @@ func drawCacheCase(t *rapid.T) *CacheCase {
 }
 
 func replay(cf *evid.CaseFile) error {
+	if cf.Sub == "fresh" {
+		var c FreshCase
+		if err := evid.Decode(cf.Gob, &c); err != nil {
+			return err
+		}
+		return freshOracle(&c)
+	}
 	if cf.Sub == "rawcache" {
 		var c CacheCase
 		if err := evid.Decode(cf.Gob, &c); err != nil {
@@ -660,8 +667,131 @@ func bigFirstUse(t *testing.T, n, goroutines int, oc fix.OpenCfg) {
 	run(t, c, "inprocess")
 }
 
+// hotWrappers: for each of many negations, every goroutine first asks for the
+// negation itself and then for a single-operand AND / OR node (or its
+// negation) around it - under the race detector whatever the single-operand
+// path does with a cached bitmap shows.
+func hotWrappers(t *testing.T, goroutines, values int) {
+	spec := gen.DataSpec{Recipe: &gen.Recipe{N: 3000, Cols: []gen.ColSpec{
+		{Name: "a", Kind: gen.KMod, K: values, Prefix: "v"}, {Name: "b", Kind: gen.KMod, K: 3}}}}
+	c := &Case{Data: spec, Open: fix.OpenCfg{CacheCap: 1 << 26}, Rounds: 1}
+	for g := 0; g < goroutines; g++ {
+		var w []Q
+		for v := 0; v < values; v++ {
+			// every goroutine first asks for the negation (so it is cached), then
+			// for ITS wrapper around it: the wrappers of one negation have
+			// different cache keys and are evaluated for the first time together
+			n := model.Not(model.Eq("a", fmt.Sprintf("v%d", v)))
+			var wr model.Expr
+			switch g % 4 {
+			case 0:
+				wr = model.And(n)
+			case 1:
+				wr = model.Or(n)
+			case 2:
+				wr = model.Not(model.And(n))
+			default:
+				wr = model.Not(model.Or(n))
+			}
+			w = append(w, Q{Expr: n}, Q{Expr: wr})
+		}
+		c.Work = append(c.Work, w)
+	}
+	run(t, c, "inprocess")
+}
+
+// FreshCase: many freshly opened indexes, each used for the first time by
+// schema readers and group-by queries released together (whatever an index
+// builds lazily on first use, and whatever locks the two paths take, meet here
+// hundreds of times).
+type FreshCase struct{ Attempts, Readers, Queriers int }
+
+func (c *FreshCase) Summary() string {
+	return fmt.Sprintf("%d fresh indexes, each first used by %d GetSchema callers and %d group-by queries at once", c.Attempts, c.Readers, c.Queriers)
+}
+
+func freshOracle(c *FreshCase) error {
+	dir := fix.CaseDir()
+	defer os.RemoveAll(dir)
+	spec := gen.DataSpec{Recipe: &gen.Recipe{N: 400, Cols: []gen.ColSpec{
+		{Name: "a", Kind: gen.KMod, K: 40, Prefix: "v"}, {Name: "b", Kind: gen.KMod, K: 3}}}}
+	rows := spec.Rows()
+	d := model.NewData(rows)
+	path, _, err := fix.Build(dir, rows, fix.WMemFile)
+	if err != nil {
+		return fmt.Errorf("INFRA: %v", err)
+	}
+	taut := model.Not(model.Eq("b", "none"))
+	for i := 0; i < c.Attempts; i++ {
+		idx, _, err := fix.Open(path, fix.OpenCfg{Preload: i%2 == 1, CacheCap: -1})
+		if err != nil {
+			return fmt.Errorf("INFRA: %v", err)
+		}
+		werr, hung, slow := fix.Watchdog(20*time.Second, []string{"[sync.RWMutex.RLock+updog.(*Index)", "[sync.RWMutex.Lock+updog.(*Index)", "[sync.Mutex.Lock+updog.(*Index)", "[semacquire+updog.(*Index)"}, func() error {
+			_, errs := fanout(c.Readers+c.Queriers, func(g int) error {
+				for k := 0; k < 3; k++ {
+					if g < c.Readers {
+						if err := fix.CheckSchema(idx, d); err != nil {
+							return err
+						}
+						continue
+					}
+					if err := fix.CheckQuery(idx, d, taut, []string{"a"}); err != nil {
+						return err
+					}
+				}
+				return nil
+			})
+			for _, e := range errs {
+				if e != nil {
+					return e
+				}
+			}
+			return nil
+		})
+		if hung != "" {
+			return &hangErr{fmt.Sprintf("fresh index #%d: schema readers and group-by queries never return:\n%s", i, hung)}
+		}
+		if slow {
+			panic("INFRA: first use of a fresh index slow (>20s) but not provably stuck")
+		}
+		fix.Safe(idx.Close)
+		if werr != nil {
+			return fmt.Errorf("fresh index #%d: %v", i, werr)
+		}
+	}
+	return nil
+}
+
+type hangErr struct{ msg string }
+
+func (h *hangErr) Error() string { return h.msg }
+
+func runFresh(t interface{ Fatalf(string, ...any) }, c *FreshCase) {
+	evid.Inflight(prop, "fresh", c, c.Summary())
+	err := freshOracle(c)
+	evid.ClearInflight(prop, "fresh")
+	if err != nil && strings.HasPrefix(err.Error(), "INFRA:") {
+		panic(err.Error())
+	}
+	evid.Note("fresh_indexes_first_used_concurrently", int64(c.Attempts))
+	evid.Case(true, c.Summary(), "fresh-index-first-use")
+	if err != nil {
+		if _, hung := err.(*hangErr); hung {
+			// the stuck goroutines keep the index and its locks: record and leave
+			evid.WriteCase(prop, "fresh", c, c.Summary(), err)
+			evid.Flush()
+			fmt.Printf("HANG: %v\n", err)
+			os.Exit(3)
+		}
+		fix.Fail(t, prop, "fresh", c, c.Summary(), err)
+	}
+}
+
 func TestQuick(t *testing.T) {
 	fix.Pinned(t, prop, replay)
+	hotWrappers(t, 8, 300)
+	runFresh(t, &FreshCase{Attempts: 700, Readers: 4, Queriers: 4})
 	bigFirstUse(t, 70001, 6, fix.OpenCfg{CacheCap: -1})
 	fix.Check(t, "rawcache", 120, func(rt *rapid.T) { runCache(rt, drawCacheCase(rt)) })
 	fix.Check(t, "inprocess", 30, func(rt *rapid.T) { run(rt, drawCase(rt, 5000, false), "inprocess") })
@@ -672,6 +802,8 @@ func TestThorough(t *testing.T) {
 	if shard, _ := evid.Shard(); shard == 0 {
 		fix.Pinned(t, prop, replay)
 	}
+	hotWrappers(t, 12, 1000)
+	runFresh(t, &FreshCase{Attempts: 1500, Readers: 4, Queriers: 4})
 	if shard, _ := evid.Shard(); shard < 3 {
 		bigFirstUse(t, 70001, 4+4*shard, fix.OpenCfg{Preload: shard == 1, CacheCap: int64(shard-1) * (1 << 20)})
 	}
